@@ -25,9 +25,16 @@ Everywhere: the call returns the reported status or ``None`` or raises FIXError,
 and FIXError only when asked to raise (every kind, unsupported ones included).
 
 Plus ``can_cancel`` / ``can_replace`` / ``is_finished`` on every status.
+
+History pass (the result is a function of the combination, nothing else): the
+complete table is called twice in one fresh process, in table order and in the
+reverse order (so for every ordered pair of cells (x, y), y is asked before any x
+and again after x); the same cell must give the same answer both times.
 """
 import enum
 import itertools
+import os
+import pickle
 
 # ----------------------------------------------------------------------------
 # Vocabulary, transcribed from FIX 4.4 (tag 39 OrdStatus, tag 150 ExecType) plus
@@ -157,6 +164,8 @@ CL_T = "transitions the exchange causes per the FIX 4.4 order state change matri
 CL_RQ_OK = "cancel/replace requests are permitted exactly for new, partially filled and suspended orders"
 CL_RQ_IGN = "cancel/replace requests are ignored while a request is pending"
 CL_RQ_REF = "cancel/replace requests are refused otherwise"
+CL_FUNC = ("for every combination of current status, message kind, ExecType and reported status the transition "
+           "function returns ... (the result is determined by the combination, not by the calls made before)")
 CL_PRED = "can_cancel / can_replace / is_finished agree with the transition rules"
 
 
@@ -485,6 +494,208 @@ def predicate_point(fn, cur, how, root, enum_failed=False):
         "count": 1,
     }
 
+# ---- history dependence -----------------------------------------------------------
+# The statement quantifies over combinations of the arguments: the result is a
+# function of (current status, kind, ExecType, reported status, error mode).
+# Oracle: the same cell called twice in ONE process gives the same answer, whatever
+# was called in between.  Enumeration: the complete table (all-enum spelling, both
+# error modes; the plain spelling of every cell is called too, as an intervening
+# call) is swept twice in one fresh process, once per listed order.  With the
+# table order and its reverse, for EVERY ordered pair of cells (x, y) one of the
+# two processes calls y before any x and again after x: a call x that changes the
+# answer of a later call y (module state kept between calls) shows up as two
+# different answers for y.  (Bound: one intervening sweep; a change undone again
+# by a third call in between is not seen.)  The answers themselves are judged by
+# R7 in the main pass.
+HIST_MODES = [True, False]
+HIST = {}
+
+
+def _fresh_many(fn, args):
+    """[fn(a) for a in args], each in its own forked child of this process (module
+    state of the library mutated by the calls dies with the child); children run
+    concurrently."""
+    kids = []
+    for a in args:
+        r, w = os.pipe()
+        pid = os.fork()
+        if pid == 0:
+            try:
+                os.close(r)
+                try:
+                    data = pickle.dumps(("ok", fn(a)))
+                except BaseException as e:  # noqa: BLE001
+                    data = pickle.dumps(("err", repr(e)))
+                with os.fdopen(w, "wb") as f:
+                    f.write(data)
+            finally:
+                os._exit(0)
+        os.close(w)
+        kids.append((pid, r))
+    out = []
+    for pid, r in kids:
+        with os.fdopen(r, "rb") as f:
+            data = f.read()
+        os.waitpid(pid, 0)
+        tag, val = pickle.loads(data) if data else ("err", "child died")
+        if tag != "ok":
+            from mc.runner import HarnessError
+            raise HarnessError(f"history pass child failed: {val}")
+        out.append(val)
+    return out
+
+
+def _fresh(fn, arg):
+    return _fresh_many(fn, [arg])[0]
+
+
+def hist_cells(n_kinds):
+    """The table in its canonical order: cells (kind index, current, exec, reported, mode)."""
+    return [(ki, cur, ex, rep, mode) for ki in range(n_kinds) for _, cur in STATUSES
+            for ex in EXEC_DOMAIN for _, rep in STATUSES for mode in HIST_MODES]
+
+
+def hist_order(name, n_kinds):
+    """Named orders: "fwd", "rev", "rot<k>" (kinds rotated to start at kind k), "rotrev<k>"."""
+    if name == "fwd":
+        return hist_cells(n_kinds)
+    if name == "rev":
+        return hist_cells(n_kinds)[::-1]
+    k = int(name.lstrip("rotev"))
+    per = len(hist_cells(1))
+    cells = hist_cells(n_kinds)
+    cells = cells[k * per:] + cells[:k * per]
+    return cells[::-1] if name.startswith("rotrev") else cells
+
+
+def hist_orders(n_kinds, quick):
+    names = ["fwd", "rev"]
+    if not quick:
+        names += [f"rot{k}" for k in range(1, n_kinds)] + [f"rotrev{k}" for k in range(1, n_kinds)]
+    return names
+
+
+def _hcall(c, sp=ALL_ENUM):
+    return call(HIST["kinds"][c[0]], c[1], c[2], c[3], c[4], sp)
+
+
+def _hist_sig(kind):
+    kn = KIND_NAME.get(kind, "unsupported") if isinstance(kind, str) else "unsupported"
+    return f"history|depends_on_earlier_calls:{kn}"
+
+
+def _double_sweep_child(name):
+    kinds = HIST["kinds"]
+    order = hist_order(name, len(kinds))
+    first = {}
+    for c in order:
+        first[c] = _hcall(c)
+        _hcall(c, ALL_STR)
+    diffs = {}
+    for c in order:
+        o = _hcall(c)
+        if o != first[c]:
+            s = _hist_sig(kinds[c[0]])
+            if s in diffs:
+                diffs[s][1] += 1
+            else:
+                diffs[s] = [c, 1]
+    return {"diffs": diffs, "calls": 3 * len(order)}
+
+
+def _sequence_child(spec):
+    """[order name, number of leading calls of it] then the primer cells, then the cell."""
+    name, k, primer, cell_ = spec
+    if name:
+        for c in hist_order(name, len(HIST["kinds"]))[:k]:
+            _hcall(c)
+            _hcall(c, ALL_STR)
+    for c in primer:
+        _hcall(tuple(c))
+        _hcall(tuple(c), ALL_STR)
+    return _hcall(tuple(cell_))
+
+
+def _cell_text(kinds, c):
+    return (f"change_status({SNAME[c[1]]}, {kinds[c[0]]!r}, {ENAME[c[2]]}, {SNAME[c[3]]}, "
+            f"raise_on_err={c[4]})")
+
+
+def hist_violation(kinds, name, k, primer, y):
+    """Re-run one sequence in fresh processes. -> violation dict or None."""
+    HIST["kinds"] = kinds
+    y = tuple(y)
+    primer = [tuple(c) for c in primer]
+    alone, after = _fresh_many(_sequence_child, [(None, 0, [], y), (name, k, primer, y)])
+    if alone == after:
+        return None
+    kind = kinds[y[0]]
+    earlier = ([f"the first {k} cells of the table in order {name!r} (each in both spellings)"] if name else []) \
+        + [_cell_text(kinds, c) for c in primer]
+    return {
+        "signature": _hist_sig(kind),
+        "clause": CL_FUNC,
+        "detail": {"earlier_calls": earlier, "call": _cell_text(kinds, y),
+                   "observed_after_earlier_calls": list(after), "observed_in_fresh_process": list(alone),
+                   "expected": "the same answer as in a fresh process"},
+        "replay": {"fn": "history", "kinds": list(kinds), "order": name, "leading": k,
+                   "primer": [list(c) for c in primer], "cell": list(y)},
+        "count": 1,
+    }
+
+
+def hist_attribute(kinds, name, y):
+    """Smallest leading part of the order after which y answers differently (bisection, fresh
+    process per probe), then the single last call of it alone."""
+    n = len(hist_order(name, len(kinds))) + 1
+    alone = _fresh(_sequence_child, (None, 0, [], y))
+    lo, hi = 0, n  # answer differs after `hi` leading calls (or only in the second sweep), not after `lo`
+    if _fresh(_sequence_child, (name, n - 1, [], y)) == alone:
+        return None
+    hi = n - 1
+    while hi - lo > 1:
+        mid = (lo + hi) // 2
+        if _fresh(_sequence_child, (name, mid, [], y)) != alone:
+            hi = mid
+        else:
+            lo = mid
+    x = hist_order(name, len(kinds))[hi - 1]
+    return hist_violation(kinds, None, 0, [x], y) or hist_violation(kinds, name, hi, [], y)
+
+
+def history_pass(ctx, kinds):
+    HIST.clear()
+    HIST["kinds"] = kinds
+    names = hist_orders(len(kinds), ctx.quick)
+    res = _fresh_many(_double_sweep_child, names)
+    calls = 0
+    first = {}
+    for name, r in zip(names, res):
+        calls += r["calls"]
+        for s, (c, n) in sorted(r["diffs"].items()):
+            if s in first:
+                first[s][2] += n
+            else:
+                first[s] = [name, tuple(c), n]
+    ctx.outcomes.add("same_answer_again")
+    for s, (name, y, n) in sorted(first.items()):
+        ctx.outcomes.add("other_answer_again")
+        v = hist_attribute(kinds, name, y)
+        if v is None:
+            # not reproducible from the first sweep alone: keep the whole double sweep as the case
+            v = hist_violation(kinds, name, len(hist_order(name, len(kinds))), [], y)
+        if v is None:
+            from mc.runner import HarnessError
+            raise HarnessError(f"history difference not reproducible: order {name} cell {y}")
+        v["count"] = n
+        ctx.merge_violations([v])
+    cells = len(hist_cells(len(kinds)))
+    ctx.count(history_cells_called_again=len(names) * cells)
+    return calls, len(names) * cells, {"orders": names, "cells_per_sweep": cells, "sweeps_per_order": 2,
+                                      "spellings_first_sweep": ["enum", "kind+status+exec+reported"],
+                                      "spelling_second_sweep": "enum",
+                                      "error_modes": [repr(m) for m in HIST_MODES]}
+
 
 def run(ctx):
     CFG["quick"] = ctx.quick
@@ -496,7 +707,8 @@ def run(ctx):
                 "enumeration is row by row in life-cycle order, all-enum spelling first; "
                 "non-trivial = (kind, status, ExecType, reported) cell of a supported kind whose reference type "
                 "is T must-transit, S must-not-move, N must-ignore or E must-refuse (not X, not unsupported-kind), "
-                "plus the 3 x 15 predicate cells")
+                "plus the 3 x 15 predicate cells; history pass: the complete table called twice in one fresh "
+                "process per listed order, the second answer of each cell compared with its first")
     try:
         for v, _ in [(v, n) for n, v in STATUSES]:
             spell_status(v, "enum")
@@ -513,10 +725,14 @@ def run(ctx):
         ctx.notes.append(f"library enums have members outside the reference vocabulary: {extra_s + extra_e}")
         ctx.cap("enum members unknown to the reference vocabulary are not explored")
 
+    # history pass first: nothing has called the transition function in this process yet
+    hcalls, hinputs, hbounds = history_pass(ctx, kinds)
+
     items = [(k, cur) for k in kinds for _, cur in STATUSES]
     res = ctx.pmap(_work, items, chunk=1)
     types = {}
-    calls = inputs = constrained = 0
+    constrained = 0
+    calls, inputs = hcalls, hinputs
     for (k, cur), r in zip(items, res):
         ctx.merge_violations(r["viol"])
         ctx.outcomes.update(r["outcomes"])
@@ -551,6 +767,7 @@ def run(ctx):
         "cells": len(kinds) * len(STATUSES) * len(EXEC_DOMAIN) * len(STATUSES),
         "reference_cells_by_type": types,
         "predicate_calls": pcalls,
+        "history_pass": hbounds,
     }
     ctx.assumptions += [
         "the domain is the FIX 4.4 OrdStatus / ExecType vocabulary plus the library's internal 'created' "
@@ -563,6 +780,12 @@ def run(ctx):
         "T cells of kind 8 are demanded only for the (ExecType, OrdStatus) pairs an exchange emits; "
         "the same reported status under another ExecType is unconstrained",
         "unsupported kinds: order error when asked to raise, None otherwise (as the statement says)",
+        "history pass: 'for every combination ... the transition function returns ...' is read as: the answer is "
+        "determined by the combination (current status, kind, ExecType, reported status, error mode); the fresh "
+        "oracle is 'the same cell asked twice in one process answers the same'; dependence on earlier calls is "
+        "explored for every ordered pair of cells (the complete table swept twice in one fresh process, in table "
+        "order and in reverse order), not for arbitrary call sequences (an effect undone by a third call in "
+        "between is out of bound)",
     ]
     ctx.sample({"cell": ["NEW", "8", "TRADE", "FILLED"], "type": cell("8", NEW, "F", FILLED)[0]})
     ctx.sample({"cell": ["FILLED", "8", "TRADE", "PARTIALLY_FILLED"], "type": cell("8", FILLED, "F", PART)[0]})
@@ -574,6 +797,9 @@ def run(ctx):
 
 def replay(ctx, rep):
     lib()
+    if rep["fn"] == "history":
+        v = hist_violation(list(rep["kinds"]), rep["order"], rep["leading"], rep["primer"], rep["cell"])
+        return [v] if v else []
     if rep["fn"] == "change_status":
         sp = tuple(rep["spelling"])
         kind, cur, ex, r, mode = rep["kind"], rep["status"], rep["exec"], rep["reported"], rep["raise_on_err"]
